@@ -40,8 +40,20 @@ def gen(seed, run, sub="clean", tier="quick"):
             readings[line] = ({"X": x, "Y": y, "Z": z, "E": 0.0} if q == "M114" else
                               {"T": x, "B": y} if q == "M105" else
                               {"X": x, "Y": y, "Z": z, "F": 0.0, "S": 0.0})
-        else:
+        elif u < 0.72:
             text = "G1 X%d Y%s F%d" % (i, r.choice(["0", "-1.5", "12.25"]), 100 + i)
+        elif u < 0.80:
+            # inner tabs / runs of blanks, surrounding whitespace (only the latter is stripped)
+            text = r.choice(["G1   X%d\tY3", "M117 Layer  %d   of 10", "  G0 X%d  Z1.5\t", "\tM118  stmt %d  done",
+                             "G1 X%d ; spaced   comment\twith tab"]) % i
+        elif u < 0.86:
+            # words the host must not interpret: it is the device's replies that matter
+            text = r.choice(["M117 ok %d", "M117 error: none %d", "M118 Resend: %d", "M117 !! %d", "M117 start %d"]) % i
+        else:
+            # exact lengths around typical block sizes, and long statements
+            want = r.choice([63, 64, 65, 127, 128, 129, 191, 192, 255, 256, 257, 384, 512])
+            head = "M117 %d " % i
+            text = head + "".join(r.choice("abcdefghijklmnopqrstuvwxyz0123456789") for _ in range(max(1, want - len(head))))
         stmts.append(text)
     err_rate = r.choice([0.0, 0.0, 0.15, 0.4])
     for i in range(n):
